@@ -98,7 +98,10 @@ def modelCompare (d : Desc) (impl : Option (Sv.Package × Sv.Module)) (slice : S
       let hyp := match Model.createNetwork d with
         | .ok g => Model.pairedGraphB g && Model.onlyLinksAtRoutersB g
         | .error _ => false
-      Json.mkObj [("status", "ok"), ("sliceEqual", a == b), ("fullEqual", full), ("graphHyp", hyp),
+      let rhyp := match Model.routed d with
+        | .ok r => Model.routeHypB r
+        | .error _ => false
+      Json.mkObj [("status", "ok"), ("sliceEqual", a == b), ("fullEqual", full), ("graphHyp", hyp), ("routeHyp", rhyp),
                   ("diff", if a == b then Json.null else firstDiff a b)]
     | none => Json.mkObj [("status", "ok")]
 
